@@ -35,3 +35,12 @@ Example tie_C13_pulse :
   /\ Src.h_pulse_sequence_PulseSequence___init__ = Expected.h_pulse_sequence_PulseSequence___init__
   /\ Src.h_util_integrate = Expected.h_util_integrate.
 Proof. repeat split; reflexivity. Qed.
+
+(* the observables of the check are read through these getters (their cache tests must not depend on the time unit) *)
+Example tie_C13_getters :
+  Src.h_pulse_sequence_PulseSequence_get_control_matrix = Expected.h_pulse_sequence_PulseSequence_get_control_matrix
+  /\ Src.h_pulse_sequence_PulseSequence_get_filter_function = Expected.h_pulse_sequence_PulseSequence_get_filter_function
+  /\ Src.h_pulse_sequence_PulseSequence_cache_control_matrix = Expected.h_pulse_sequence_PulseSequence_cache_control_matrix
+  /\ Src.h_pulse_sequence_PulseSequence_cache_filter_function = Expected.h_pulse_sequence_PulseSequence_cache_filter_function
+  /\ Src.h_numeric_infidelity = Expected.h_numeric_infidelity.
+Proof. repeat split; reflexivity. Qed.
